@@ -17,6 +17,7 @@ package tcell
 import (
 	"os"
 	"reflect"
+	"unicode"
 
 	runewidth "github.com/mattn/go-runewidth"
 )
@@ -67,7 +68,7 @@ func (cb *CellBuffer) SetContent(x int, y int,
 		c.currComb = append([]rune{}, combc...)
 
 		if c.currMain != mainc {
-			c.width = runewidth.RuneWidth(mainc)
+			c.width = runeWidth(mainc)
 		}
 		c.currMain = mainc
 		if style.fg == ColorNone {
@@ -221,7 +222,7 @@ func (cb *CellBuffer) Resize(w, h int) {
 // If either the foreground or background are ColorNone, then the respective
 // color is unchanged.
 func (cb *CellBuffer) Fill(r rune, style Style) {
-	width := runewidth.RuneWidth(r)
+	width := runeWidth(r)
 	for i := range cb.cells {
 		c := &cb.cells[i]
 		c.currMain = r
@@ -239,6 +240,18 @@ func (cb *CellBuffer) Fill(r rune, style Style) {
 }
 
 var runeConfig *runewidth.Condition
+
+// runeWidth returns the number of cells a primary rune occupies.  Nonspacing
+// and enclosing marks and format characters (bidi controls, joiners and the
+// like) have no width of their own, whatever the width tables say, so that
+// they are shown as a blank instead of being sent to the terminal.
+func runeWidth(r rune) int {
+	if unicode.In(r, unicode.Mn, unicode.Me, unicode.Cf) &&
+		!unicode.Is(unicode.Prepended_Concatenation_Mark, r) {
+		return 0
+	}
+	return runewidth.RuneWidth(r)
+}
 
 func init() {
 	// The defaults for the runewidth package are poorly chosen for terminal
